@@ -52,7 +52,8 @@ func (vt *Model) sgr(params [][]int) {
 		case 9:
 			vt.cursor.Attribute |= vaxis.AttrStrikethrough
 		case 21:
-			// Double underlined, not supported
+			// Doubly underlined (ECMA-48, xterm); SGR 24 turns it off
+			vt.cursor.UnderlineStyle = vaxis.UnderlineDouble
 		case 22:
 			vt.cursor.Attribute &^= vaxis.AttrBold
 			vt.cursor.Attribute &^= vaxis.AttrDim
